@@ -2,6 +2,7 @@ import Pendulum.Proofs.ZoneOps
 import Pendulum.Model.DTOps
 import Pendulum.Proofs.AddDur
 import Pendulum.Proofs.AddDurGen
+import Pendulum.Proofs.DTArithGen
 import Pendulum.Props.C01
 /-! # C03 — adding fixed-length units moves the instant by exactly that elapsed time -/
 namespace Pendulum.Props.C03
@@ -153,5 +154,71 @@ theorem add_duration_source_date (y m d years months weeks days hours minutes se
 /-! non-vacuity -/
 example : (DTOps.add ⟨.named ⟨3600000000, [⟨1000000000000, 7200000000⟩]⟩, 1001800000000, false⟩ 0 0 0 0 1 0 0 0).toOption.map (·.w)
     = some (1001800000000 + 3600000000 + 3600000000) := by decide +kernel
+
+/-! ### the entry points themselves: `DateTime.add`, `subtract`, `_add_timedelta_`, `_subtract_timedelta`, `__add__`, `__radd__`,
+`__sub__`, regenerated from `src/pendulum/datetime.py` on every run (`tools/gen_dtarith.py` → `Gen/DTArith.lean`, one Lean
+definition per method, statement by statement). The callees (`helpers.add_duration`, native `datetime - timedelta`,
+`self.tz.convert(<UTC value>)`) are parameters of the generated code; `DTArithGen.Linked I v` states their link to the
+model (`addDuration`, range check, `inTz` from UTC) and is satisfiable for every value (`DTArithGen.linked_instOf`). -/
+open Pendulum.Gen.DTArith Pendulum.DTArithGen
+
+/-- **`DateTime.add`, from the source**: the `units_of_variable_length` test, the conditional `current_dt - offset`, the call of
+    `add_duration`, the choice between `create(..., tz=self.tz)` (default fold) and the route through UTC
+    (`datetime(..., tzinfo=UTC)`, `self.tz.convert`, `self.__class__(..., tzinfo=self.tz, fold=dt.fold)`), read back with the
+    model's `create`, are the hand model `DTOps.addChecked` — for every value, every amount (a float `seconds=` worth
+    `t` µs counting as `t` microseconds) -/
+theorem add_source_eq_model (I : Inst) (v : V) (hl : Linked I v) (hv : inRange v.w = true)
+    (years months weeks days hours minutes : Int) (seconds : Sec) (micros : Int) :
+    interp v (dt_add I years months weeks days hours minutes seconds micros) =
+      DTOps.addChecked v years months weeks days hours minutes (secS seconds) (micros + secU seconds) :=
+  add_eq I v hl hv years months weeks days hours minutes seconds micros
+
+/-- **`DateTime.subtract`, from the source**: every keyword is negated and handed to `add` -/
+theorem subtract_source_eq_model (I : Inst) (v : V) (hl : Linked I v) (hv : inRange v.w = true)
+    (years months weeks days hours minutes : Int) (seconds : Sec) (micros : Int) :
+    dt_subtract I years months weeks days hours minutes seconds micros =
+      dt_add I (-years) (-months) (-weeks) (-days) (-hours) (-minutes) (Sec.neg seconds) (-micros) ∧
+    interp v (dt_subtract I years months weeks days hours minutes seconds micros) =
+      DTOps.addChecked v (-years) (-months) (-weeks) (-days) (-hours) (-minutes) (-(secS seconds)) (-(micros + secU seconds)) :=
+  ⟨subtract_eq I _ _ _ _ _ _ _ _, subtract_model I v hl hv _ _ _ _ _ _ _ _⟩
+
+/-- **the operators with a plain timedelta of `t` µs, from the source**: `dt + td`, `td + dt` (any calling frame other
+    than `astimezone`) and `dt - td` reach `add(seconds=td.total_seconds())` / `subtract(seconds=…)`: the model's
+    `addChecked` with `± t` µs and nothing else (C03: the instant moves by exactly the elapsed time) -/
+theorem operators_source_eq_model (I : Inst) (v : V) (hl : Linked I v) (hv : inRange v.w = true) (caller : String)
+    (o no : Operand) (hk : o.kind = .timedelta) (hc : caller ≠ "astimezone") :
+    (dt_op_add I caller o).toOption.bind (fun r => match r with | .value q => some (reqV v q) | _ => none)
+      = (dt_add_timedelta I o).toOption.map (reqV v) ∧
+    dt_op_radd I o = dt_op_add I "__radd__" o ∧
+    interp v (dt_add_timedelta I o) = DTOps.addChecked v 0 0 0 0 0 0 0 o.total_seconds ∧
+    dt_op_sub I o no = Except.map Res.value (dt_subtract_timedelta I o no) ∧
+    interp v (dt_subtract_timedelta I o no) = DTOps.addChecked v 0 0 0 0 0 0 0 (-o.total_seconds) := by
+  have t := timedelta_model I v hl hv o no hk
+  refine ⟨?_, ?_, t.1, ?_, t.2⟩
+  · rw [(op_add_eq I caller o).1]
+    simp only [isDelta, hk, hc]
+    cases dt_add_timedelta I o <;> simp [Except.map, Except.toOption]
+  · rw [(op_add_eq I "__radd__" o).1, (op_add_eq I "__radd__" o).2]; simp
+  · rw [op_sub_eq]; simp [isDelta, hk]
+
+/-- the operand kinds `__add__` / `__radd__` accept: anything that is not a timedelta → `NotImplemented`; called from the
+    frame `astimezone` (CPython's `datetime.astimezone` adds the offset with `+`) → the native addition -/
+theorem add_dispatch_source_eq_model (I : Inst) (caller : String) (o : Operand) :
+    (isDelta o.kind = false → dt_op_add I caller o = .ok .notImplemented ∧ dt_op_radd I o = .ok .notImplemented) ∧
+    (isDelta o.kind = true → dt_op_add I "astimezone" o = .ok .super_add) := by
+  constructor
+  · intro h; rw [(op_add_eq I caller o).1, (op_add_eq I caller o).2]; simp [h]
+  · intro h; rw [(op_add_eq I "astimezone" o).1]; simp [h]
+
+/-- the way the calling frame is read is pinned verbatim -/
+theorem caller_guard_pinned : caller_source = "traceback.extract_stack(limit=2)[0].name" := by decide
+
+/-! non-vacuity: the link hypotheses hold for `instOf v`; the generated `add` computes: +1 h across the transition of the
+    example zone above goes through UTC and ends in the raw constructor with the fold of the conversion -/
+example (v : V) : Linked (instOf v) v := linked_instOf v
+example : (dt_add (instOf ⟨.named ⟨3600000000, [⟨1000000000000, 7200000000⟩]⟩, 1001800000000, false⟩) 0 0 0 0 1 0 (.int 0) 0).toOption
+    = some (.construct 1970 1 12 16 16 40 0 false) := by decide +kernel
+example : (dt_add (instOf ⟨.naive, 0, false⟩) 0 1 0 0 0 0 (.int 0) 0).toOption = some (.create 1970 2 1 0 0 0 0 true) := by
+  decide +kernel
 
 end Pendulum.Props.C03
